@@ -120,6 +120,43 @@ func bodyShape(body *ast.BlockStmt) string {
 	return "calls=" + strings.Join(l, ",") + " exits=" + e
 }
 
+// clockContext says what confines a clock reading: an enclosing condition that mentions the
+// "casting" situation, and/or being an argument of a logging call.
+func clockContext(stack []ast.Node) string {
+	mentionsCasting := func(e ast.Expr) bool {
+		found := false
+		ast.Inspect(e, func(n ast.Node) bool {
+			if bl, ok := n.(*ast.BasicLit); ok && bl.Value == "\"casting\"" {
+				found = true
+			}
+			return true
+		})
+		return found
+	}
+	guard, inLog := "none", false
+	for i := len(stack) - 2; i >= 0; i-- {
+		switch x := stack[i].(type) {
+		case *ast.IfStmt:
+			if mentionsCasting(x.Cond) {
+				guard = "casting"
+			}
+		case *ast.BinaryExpr:
+			if x.Op == token.LAND && mentionsCasting(x) {
+				guard = "casting"
+			}
+		case *ast.CallExpr:
+			switch calleeName(x.Fun) {
+			case "Debugf", "Infof", "Warnf", "Errorf", "Tracef":
+				inLog = true
+			}
+		}
+	}
+	if inLog {
+		return "guard=" + guard + " in=log"
+	}
+	return "guard=" + guard
+}
+
 func main() {
 	repo := "."
 	for _, a := range os.Args[1:] {
@@ -175,7 +212,13 @@ func main() {
 						fn = strings.TrimPrefix(exprString(fset, fd.Recv.List[0].Type), "*") + "." + fn
 					}
 					usesFloat := false
+					var stack []ast.Node
 					ast.Inspect(fd.Body, func(n ast.Node) bool {
+						if n == nil {
+							stack = stack[:len(stack)-1]
+							return true
+						}
+						stack = append(stack, n)
 						switch x := n.(type) {
 						case *ast.RangeStmt:
 							tv, ok := info.Types[x.X]
@@ -191,7 +234,7 @@ func main() {
 								full := exprString(fset, se)
 								switch {
 								case full == "time.Now" || full == "time.Since" || full == "utility.GetTime":
-									sites = append(sites, site{"clock", rel, fn, full})
+									sites = append(sites, site{"clock", rel, fn, full + " " + clockContext(stack)})
 								case strings.HasPrefix(full, "rand.") || full == "base.NewRand":
 									sites = append(sites, site{"rand", rel, fn, full})
 								case se.Sel.Name == "Range":
